@@ -14,7 +14,7 @@ ROOT = os.path.dirname(os.path.dirname(os.path.abspath(__file__)))
 REPO = os.environ.get("VERIF_REPO", "/repo")
 SPEC = os.path.join(ROOT, "spec")
 HARNESS = os.path.join(ROOT, "harness")
-BUILD = os.path.join(ROOT, "build")
+BUILD = os.environ.get("VERIF_BUILD", os.path.join(ROOT, "build"))
 EVID = os.environ.get("VERIF_EVID", os.path.join(ROOT, "evidence"))
 REPLAY = os.path.join(EVID, "replay")
 JAR = "/opt/veriftools/tla/tla2tools.jar:/opt/veriftools/tla/CommunityModules-deps.jar"
@@ -314,6 +314,8 @@ def validate_executions(module, cfg, trace_path, workdir, prop, chunks=None, tim
                 tot += len(x)
             bad.append((g[k], matched - tot))
             g = g[k + 1:]
+            if len(bad) >= 2:      # enough to report; the rest of this chunk stays unexamined
+                break
         return bad
 
     with cf.ThreadPoolExecutor(min(NCPU, len(groups))) as ex:
@@ -322,7 +324,7 @@ def validate_executions(module, cfg, trace_path, workdir, prop, chunks=None, tim
                 failures.append((x, at))
     out = []
     os.makedirs(REPLAY, exist_ok=True)
-    for n, (x, at) in enumerate(failures[:20]):
+    for n, (x, at) in enumerate(failures[:6]):
         rp = os.path.join(REPLAY, "%s-%s-%d.ndjson" % (prop, label, n))
         with open(rp, "w") as f:
             f.writelines(x)
@@ -331,8 +333,8 @@ def validate_executions(module, cfg, trace_path, workdir, prop, chunks=None, tim
             nxt = x[matched].strip() if matched < len(x) else ""
             out.append({"replay": rp, "matched": matched, "next_event": nxt[:600], "reset": x[0].strip()[:300],
                         "detail": (r.violated or "")})
-    if len(failures) > 20:
-        log("[trace] %d further failing executions not isolated" % (len(failures) - 20))
+    if len(failures) > 6:
+        log("[trace] %d further failing executions not re-run alone" % (len(failures) - 6))
     return nexec, nev, out, len(failures)
 
 
